@@ -987,7 +987,7 @@ func (fr *Frame) behaviourOf(v ssa.Value) string {
 
 // atCallChecks asserts the function's "atcall" clauses before a matching call.
 func (fr *Frame) atCallChecks(ci ssa.CallInstruction, c *ssa.CallCommon) {
-	if fr.fc == nil || len(fr.fc.AtCalls) == 0 || fr.parent != nil {
+	if fr.fc == nil || len(fr.fc.AtCalls) == 0 {
 		return
 	}
 	name := ""
@@ -1015,7 +1015,9 @@ func (fr *Frame) atCallChecks(ci ssa.CallInstruction, c *ssa.CallCommon) {
 			}
 		}
 		env.resolve = func(n string) (TV, bool) { return fr.resolveNameAt(n, li, ci) }
+		fr.resolveState = fr.cur
 		t := fr.safeTr(env, ac)
+		fr.resolveState = nil
 		fr.enc.oblige(fmt.Sprintf("atcall%d", i+1), fr.where(ci), "before calling "+ac.Kind+": "+ac.Text, ac.Tags, fr.curPC, t)
 	}
 }
